@@ -318,7 +318,7 @@ EXTRA = {
            "swapped pairs); filters drawn include --discard-casava and --max-n.",
     "C18": "Specifications also go through cutadapt's argument parser and adapters_from_args (global options must "
            "reach R1 and R2 adapters alike); adapters of realistic length (30-110 nt) are drawn and an absolute error "
-           "value E is probed behaviourally (the adapter with E substitutions must be found).",
+           "value E is probed behaviourally (the adapter with E substitutions must be found); ';anywhere' on -b is accepted.",
     "C19": "Compression levels, --fasta on standard output next to redirect files without a recognised extension, and "
            "real-process runs under the spawn and forkserver start methods are included; names with upper- or mixed-case "
            "extensions must get the same format for every compression suffix and core count.",
